@@ -19,7 +19,7 @@ from typing import Any
 import numpy as np
 
 from . import replay as rp
-from .export import Unsupported, data_name, dt, expr_to_json
+from .export import Unsupported, data_name, dt
 
 
 class HasFunctions(Exception):
@@ -108,6 +108,16 @@ def tag_redn(x: Any, j: int, tag: Any) -> Any:
     return x
 
 
+def taggable(v: Any) -> bool:
+    """(the axes of a DistributedSendRefHolder are those of its pass-through
+    data: it has none of its own to tag)"""
+    import pytato as pt
+    from pytato.distributed.nodes import DistributedSendRefHolder
+    from pytato.function import NamedCallResult
+    return isinstance(v, pt.Array) and not isinstance(
+        v, (DistributedSendRefHolder, NamedCallResult))
+
+
 def build(prog: dict, data: dict[str, np.ndarray] | None = None) -> tuple[dict[str, Any], list]:
     """Replays the program; every value is tagged as the placement says right
     after it is created, so every later user sees the tagged node.
@@ -126,7 +136,7 @@ def build(prog: dict, data: dict[str, np.ndarray] | None = None) -> tuple[dict[s
 
     def placed(v: Any) -> Any:
         k = len(pb.values) + 1
-        if isinstance(v, pt.Array):
+        if taggable(v):
             for i, spec in ax.get(k, []):
                 if i < v.ndim:
                     v = v.with_tagged_axis(i, make_tag(spec))
@@ -189,6 +199,69 @@ def raw_index_lambda(call: dict, get: Any) -> Any:
 
 # --------------------------------------------------------------------------
 # exporter
+
+def expr_to_json(e: Any, bindings: dict[str, Any]) -> Any:
+    """Scalar expressions in the format of export.expr_to_json (same kinds),
+    except that NOTHING is simplified away: the argument of pytato.zero(...)
+    (zeros_like) is a subscript of the expression like any other."""
+    import re
+
+    import pymbolic.primitives as prim
+
+    from pytato.scalar_expr import Reduce, TypeCast
+    nary = {prim.Sum: "add", prim.Product: "mul", prim.LogicalAnd: "and", prim.LogicalOr: "or",
+            prim.BitwiseAnd: "band", prim.BitwiseOr: "bor", prim.BitwiseXor: "bxor",
+            prim.Max: "max", prim.Min: "min"}
+    binary = {prim.Quotient: ("quot", "numerator", "denominator"),
+              prim.FloorDiv: ("fdiv", "numerator", "denominator"),
+              prim.Remainder: ("mod", "numerator", "denominator"),
+              prim.Power: ("pow", "base", "exponent")}
+
+    def rec(e: Any) -> Any:
+        if isinstance(e, prim.Variable):
+            m = re.fullmatch(r"_(0|[1-9][0-9]*)", e.name)
+            if m and e.name not in bindings:
+                return {"k": "ix", "d": int(m.group(1))}
+            if e.name in bindings:
+                return {"k": "bv", "n": e.name}
+            return {"k": "rv", "n": e.name}
+        if isinstance(e, prim.Subscript):
+            if not isinstance(e.aggregate, prim.Variable):
+                raise Unsupported("subscript of non-variable")
+            return {"k": "sub", "a": e.aggregate.name, "i": [rec(i) for i in e.index_tuple]}
+        for cls, k in nary.items():
+            if isinstance(e, cls):
+                return {"k": k, "c": [rec(c) for c in e.children]}
+        for cls, (k, fa, fb) in binary.items():
+            if isinstance(e, cls):
+                return {"k": k, "a": rec(getattr(e, fa)), "b": rec(getattr(e, fb))}
+        if isinstance(e, prim.Comparison):
+            return {"k": "cmp", "op": e.operator, "a": rec(e.left), "b": rec(e.right)}
+        if isinstance(e, prim.LogicalNot):
+            return {"k": "not", "a": rec(e.child)}
+        if isinstance(e, prim.If):
+            return {"k": "if", "c": rec(e.condition), "t": rec(e.then), "e": rec(e.else_)}
+        if isinstance(e, prim.Call):
+            return {"k": "call", "fn": str(e.function), "p": [rec(q) for q in e.parameters]}
+        if isinstance(e, prim.NaN):
+            return {"k": "nan"}
+        if isinstance(e, TypeCast):
+            return {"k": "cast", "dt": dt(e.dtype), "a": rec(e.inner_expr)}
+        if isinstance(e, Reduce):
+            return {"k": "red", "op": type(e.op).__name__,
+                    "b": [{"v": v, "lo": rec(lo), "hi": rec(hi)}
+                          for v, (lo, hi) in sorted(e.bounds.items())],
+                    "a": rec(e.inner_expr)}
+        if isinstance(e, prim.ExpressionNode):
+            raise Unsupported(f"expression node {type(e).__name__}")
+        if isinstance(e, (bool, np.bool_)):
+            return {"k": "c", "v": int(e)}
+        if isinstance(e, (int, np.integer)) and abs(int(e)) < 2 ** 30:
+            return {"k": "c", "v": int(e)}
+        return {"k": "cd", "v": repr(e)}
+
+    return rec(e)
+
 
 def _sha(o: Any) -> str:
     return hashlib.sha256(json.dumps(o, sort_keys=True, default=str).encode()).hexdigest()[:16]
@@ -640,6 +713,8 @@ def same_structure(g: dict, h: dict, m: list[int]) -> bool:
 
 def judge(rec: dict) -> tuple[str, str]:
     """-> (clause, detail): the same decision procedure as PtAxesCheck.Clause"""
+    if "raised" in rec:
+        return judge_raised(rec)
     a, b, m = rec["a"], rec["b"], rec["map"]
     if not same_structure(a, b, m):
         return "structure", "the result differs from the input in more than axis tags"
@@ -717,6 +792,63 @@ def judge(rec: dict) -> tuple[str, str]:
                 return "not_idempotent", f"node{p}({n['cls']}): {n2['ax']} {n2['rdn']} -> " \
                                          f"{n3['ax']} {n3['rdn']}"
     return "ok", ""
+
+
+def judge_raised(rec: dict) -> tuple[str, str]:
+    """the run ended with NonUniqueTagError: allowed iff some axis may receive
+    two tags that exclude each other"""
+    a = rec["a"]
+    ax_vars, rd_vars = set(), set()
+    t0: dict[int, set] = {}
+    for p, n in enumerate(a["nodes"], start=1):
+        for i, tags in enumerate(n["ax"]):
+            ax_vars.add(AV(p, i))
+            t0[AV(p, i)] = set(tags)
+        for j, tags in enumerate(n["rdn"]):
+            rd_vars.add(RV(p, j))
+            t0[RV(p, j)] = set(tags)
+    vs = ax_vars | rd_vars
+    must: list = []
+    may: list = []
+    bc: list = []
+    try:
+        for p in range(1, len(a["nodes"]) + 1):
+            mu, ma, b_ = node_equations(a, p)
+            must += mu
+            may += ma
+            bc += b_
+    except SpecShape as ex:
+        return "spec_shape", f"node {ex.args[0]}"
+    ign = set(rec["ign"])
+    pt = set(rec["prop"]) - ign
+    ign_ax = {v for v in ax_vars if t0[v] & ign}
+    src_ax = {v: (t0[v] if v in ax_vars else set()) for v in vs}
+    judged = vs if rec["redn"] else ax_vars
+
+    def conflict(extra_edges: list) -> bool:
+        up = closure(vs, must + may + extra_edges, ign_ax, t0, pt)
+        return any(set(g) <= t0[v] | up[v] for v in judged for g in rec["groups"])
+    if conflict([]):
+        return "ok", ""
+    br = [(u, v) for u in ax_vars for v in ax_vars if u < v and src_ax[u] & src_ax[v] & pt]
+    if conflict(br + bc):
+        return "unique_error_via_shared_tag", rec["raised"]
+    return "unexpected_unique_error", rec["raised"]
+
+
+def conflicting_pairs(tags: dict[str, Any]) -> list[list[str]]:
+    """pairs of tag names that pytools refuses on one Taggable (asked of
+    pytools itself, not modelled)"""
+    from pytools.tag import NonUniqueTagError, check_tag_uniqueness
+    out = []
+    names = sorted(tags)
+    for i, x in enumerate(names):
+        for y in names[i + 1:]:
+            try:
+                check_tag_uniqueness(frozenset({tags[x], tags[y]}))
+            except NonUniqueTagError:
+                out.append([x, y])
+    return out
 
 
 def n_axis_vars(g: dict) -> int:
